@@ -29,7 +29,8 @@ type seqStep struct {
 }
 
 type seqPhase struct {
-	Steps [][]seqStep `json:"steps"` // per object
+	Steps [][]seqStep `json:"steps"` // per worker goroutine
+	Obj   []int       `json:"obj"`   // worker -> Sequence object (two workers may share one object)
 	End   string      `json:"end"`   // close, release, crash
 }
 
@@ -60,7 +61,13 @@ func genC30(t *rapid.T) c30Case {
 	}
 	for p, np := 0, rapid.IntRange(1, 4).Draw(t, "nphases"); p < np; p++ {
 		var ph seqPhase
-		for range c.Objs {
+		nworkers := len(c.Objs) + rapid.IntRange(0, 2).Draw(t, "extraworkers")
+		for w := 0; w < nworkers; w++ {
+			if w < len(c.Objs) {
+				ph.Obj = append(ph.Obj, w)
+			} else {
+				ph.Obj = append(ph.Obj, rapid.IntRange(0, len(c.Objs)-1).Draw(t, "sharedobj"))
+			}
 			var steps []seqStep
 			for s, ns := 0, rapid.IntRange(1, 5).Draw(t, "nsteps"); s < ns; s++ {
 				if rapid.IntRange(0, 3).Draw(t, "rel") == 0 {
@@ -145,17 +152,21 @@ func runC30(c c30Case, rec *evid.Rec) (core.Result, error) {
 			seqs[i] = s
 		}
 		var wg sync.WaitGroup
-		errs := make([]error, len(c.Objs))
-		for i := range c.Objs {
+		errs := make([]error, len(ph.Steps))
+		for wk := range ph.Steps {
 			wg.Add(1)
-			go func(i int) {
+			go func(wk int) {
 				defer wg.Done()
+				i := wk
+				if wk < len(ph.Obj) {
+					i = ph.Obj[wk] % len(c.Objs)
+				}
 				var last uint64
 				have := false
-				for _, st := range ph.Steps[i] {
+				for _, st := range ph.Steps[wk] {
 					if st.Release {
 						if err := seqs[i].Release(); err != nil && err != badger.ErrConflict && err != badger.ErrKeyNotFound {
-							errs[i] = fmt.Errorf("Release: %v", err)
+							errs[wk] = fmt.Errorf("Release: %v", err)
 							return
 						}
 						continue
@@ -169,11 +180,11 @@ func runC30(c c30Case, rec *evid.Rec) (core.Result, error) {
 							continue
 						}
 						if err != nil {
-							errs[i] = fmt.Errorf("Next: %v", err)
+							errs[wk] = fmt.Errorf("Next: %v", err)
 							return
 						}
 						if have && v <= last {
-							errs[i] = fmt.Errorf("phase %d: Sequence object %d (key %d, bandwidth %d) returned %d after %d: not strictly increasing", pi, i, c.Objs[i].Key, c.Objs[i].BW, v, last)
+							errs[wk] = fmt.Errorf("phase %d: Sequence object %d (key %d, bandwidth %d) returned %d after %d to the same goroutine: not strictly increasing", pi, i, c.Objs[i].Key, c.Objs[i].BW, v, last)
 							return
 						}
 						last, have = v, true
@@ -183,7 +194,7 @@ func runC30(c c30Case, rec *evid.Rec) (core.Result, error) {
 							seen[k] = map[uint64]handed{}
 						}
 						if prev, dup := seen[k][v]; dup {
-							errs[i] = fmt.Errorf("phase %d: number %d of key %d handed out twice: to object %d in phase %d and to object %d (bandwidth %d) in phase %d", pi, v, k, prev.obj, prev.phase, i, c.Objs[i].BW, pi)
+							errs[wk] = fmt.Errorf("phase %d: number %d of key %d handed out twice: to object %d in phase %d and to object %d (bandwidth %d) in phase %d", pi, v, k, prev.obj, prev.phase, i, c.Objs[i].BW, pi)
 							mu.Unlock()
 							return
 						}
@@ -192,7 +203,7 @@ func runC30(c c30Case, rec *evid.Rec) (core.Result, error) {
 						mu.Unlock()
 					}
 				}
-			}(i)
+			}(wk)
 		}
 		wg.Wait()
 		for _, e := range errs {
@@ -257,6 +268,6 @@ func runC30(c c30Case, rec *evid.Rec) (core.Result, error) {
 
 func TestC30_Sequence(t *testing.T) {
 	core.Run(t, "C30", "sequence",
-		"rapid-generated plans: 1-4 Sequence objects over 1-2 keys (bandwidth 1/2/3/10), one goroutine per object running generated runs of Next calls and Release calls concurrently (conflict detection on/off, jitter at the commit hooks), in 1-4 phases separated by Close, Release-all + Close, or a crash (the directory image a process kill leaves at that moment is copied and opened instead). Oracle: every number a Next call returned is unique per key over the whole plan (all objects, all phases, across restarts and crashes), and strictly increasing per object; Next may fail (lease conflict), a failed call hands out nothing. Non-trivial = >=10 numbers over >=2 phases with a restart or crash.",
+		"rapid-generated plans: 1-4 Sequence objects over 1-2 keys (bandwidth 1/2/3/10), one or two goroutines per object running generated runs of Next calls and Release calls concurrently (Release can race Next on the same object) (conflict detection on/off, jitter at the commit hooks), in 1-4 phases separated by Close, Release-all + Close, or a crash (the directory image a process kill leaves at that moment is copied and opened instead). Oracle: every number a Next call returned is unique per key over the whole plan (all objects, all phases, across restarts and crashes), and strictly increasing for each goroutine using an object; Next may fail (lease conflict), a failed call hands out nothing. Non-trivial = >=10 numbers over >=2 phases with a restart or crash.",
 		genC30, runC30)
 }
